@@ -114,3 +114,16 @@ def optional_is_equal(repo: Path, lean: Path) -> dict:
     if res["ok"] is False and not res["note"] and not r["ok"]:
         res["note"] = r["note"]
     return res
+
+
+MATCH_MODULE = "PyOak.Props.GenBridgeMatch"
+MATCH_THEOREMS = ["PyOak.GenBridge.wrap_eq_gen", "PyOak.GenBridge.core_leaf_eq_gen", "PyOak.GenBridge.core_seq_eq_gen",
+                  "PyOak.GenBridge.core_node_eq_gen", "PyOak.GenBridge.runZip_eq_gen", "PyOak.GenBridge.content_eq_gen",
+                  "PyOak.GenBridge.run_eq_gen", "PyOak.GenBridge.matchNode_eq_gen", "PyOak.GenBridge.gen_eq_spec",
+                  "PyOak.GenBridge.gen_match_iff"]
+
+
+def optional_match(repo: Path, lean: Path) -> dict:
+    """C08: `BaseMatcher.match` + the `_match` methods of the six matcher classes (src/pyoak/match/pattern.py)"""
+    return _optional(repo, lean, "KernelsMatch.lean", py2lean_k.generate_match, MATCH_MODULE, MATCH_THEOREMS,
+                     "BaseMatcher.match / _match methods")
